@@ -161,17 +161,19 @@ NOT_APPLICABLE = {}
 
 # which clause of each property is decided how (copied into the evidence of every run)
 CLAUSES = {
-    "C01": {"first apply (no previous record): configuration nodes present, scalars carry its value": "theorem (SMD.C01, when present in the audit) + judge",
-            "general case (configuration survives pruning)": "correspondence + judge configuration-takes-effect after every successful apply"},
-    "C02": {"adds/changes only configuration fields; removes only beneath abandoned fields; others keep values": "correspondence + judges (frame conditions on Compare(live, result))",
-            "disjoint configurations commute": "judge disjoint-configurations-commute: two managers owning nothing yet apply structurally disjoint plain configurations in both orders from the current state of a history (reading R13): same outcome kind, objects equal up to member order, equal ownership"},
+    "C01": {"merge right-wins against the independent resolver; a manager's first apply takes effect (paths without positional elements, scalar key fields; paths of field names unconditionally); refutations of the unrestricted statements": "theorems",
+            "general case (configuration survives pruning)": "correspondence + judges configuration-takes-effect (library's own extraction, and the independent resolver nodeAt with key defaults) after every successful apply"},
+    "C02": {"frame law of the merge and of a first apply (what the configuration is silent about is kept, where the merge descends); refutations without that condition": "theorems",
+            "adds/changes only configuration fields; removes only beneath abandoned fields; others keep values (apply with pruning)": "correspondence + judges (frame conditions on Compare(live, result))",
+            "disjoint configurations commute": "judge disjoint-configurations-commute (reading R13)"},
     "C03": {"a manager's first apply removes nothing": "theorem first_apply_is_merge / apply_with_empty_record_is_merge + judge",
             "abandoned unowned fields are removed, leave the record": "correspondence + judge abandoned-field-removed (reading R3)"},
     "C04": {"force never conflicts; unforced success = forced; conflict non-empty, other managers only": "theorems",
             "the conflict list is exactly the set of other managers' fields changed or created": "judge against an independent Compare(live, forced result)"},
     "C05": {"applier owns exactly its (filtered) configuration; others only shrink, keep version/status; no empty record; updater equation": "theorems (managed fields sorted by manager = Go map invariant)",
             "others lose exactly the changed/created/removed fields": "judge against an independent diff"},
-    "C06": {"live object valid, every owned path designates something present, only conflict errors": "correspondence + judges (independent path resolver)",
+    "C06": {"along every history of Updates: live object valid, managed fields well formed, every owned path designates a node of the live object (independent resolver); one-step lemmas for Update and a first Apply": "theorems (Compare facts discharged from C11 exactness)",
+            "apply with pruning; only conflict errors": "correspondence + judges (independent path resolver)",
             "typed operations total on accepted values": "theorems SMD.C13.*_ok_of_valid"},
     "C07": {"no-op signal exact": "theorems", "re-apply / extract-apply fixed point": "judge (second Apply after every successful apply)"},
     "C08": {"conversion failure at any recorded version surfaces as an error with no object": "theorems (for every converter)",
@@ -181,10 +183,11 @@ CLAUSES = {
     "C10": {"protocols (once, mutex memo, copy-on-write cache) linearizable, sound, exclusive": "theorems over all interleavings",
             "every access to the shared fields inside its protocol": "theorem guard_table_admissible on the table regenerated from /repo each run",
             "no data race in the Go memory model": "race detector on the conc domain (search tool)"},
-    "C11": {"self-comparison empty; from/to nothing only adds/removes; result sets well formed": "theorems",
-            "agreement with a reference diff, disjointness, swap": "correspondence + judges (independent normal form)"},
-    "C12": {"scalar right-wins; merge with nothing; panic only from unresolved inline reference; totality": "theorems",
-            "right wins / no removal / union / idempotence / associativity / ordering": "correspondence + judges"},
+    "C11": {"self-comparison empty; from/to nothing only adds/removes; result sets well formed; operand swap; pairwise disjointness (duplicate-free operands); added / removed / modified characterised by the nodes the operands hold (nodeAt, and Nodes.present for associative lists)": "theorems",
+            "empty exactly when equal up to member order; duplicates": "correspondence + judges (independent normal form)"},
+    "C12": {"scalar right-wins; merge with nothing; result valid (duplicates allowed on the left); duplicate-free result, field set ⊆ union, R's field set ⊆ result's, merging R again is a no-op (scalar key fields; refutations otherwise); panic only from unresolved inline reference; totality": "theorems",
+            "right wins / no removal at nodes: C01 and C02 theorems": "theorems",
+            "associativity / ordering of members": "correspondence + judges"},
     "C13": {"accepted iff conforms (independent reference validator); never panics; resolve congruence; operations total on accepted values": "theorems",
             "schema documents accepted iff they conform to the schema of schemas": "correspondence against validation of the decoded document under the schema of schemas shipped from the source"},
     "C14": {"remove/extract nothing; field sets well formed; no invented entries; (node laws when present in the audit)": "theorems",
@@ -195,12 +198,13 @@ CLAUSES = {
     "C17": {"all clauses for values, key lists, path elements, matchers, paths, sorted containers": "theorems",
             "schema equality relates exactly the structurally identical schemas": "correspondence + judges on re-parses and single-point edits"},
     "C18": {"Set/Delete change exactly that entry (abstract value)": "theorems",
-            "reflection = encoding/json round trip; equality/ordering/typed operations agree; JSON/YAML round trips": "correspondence + judges (external libraries)"},
+            "reflection = encoding/json round trip on the Go family (reflectV vs jsonV: both total, Equal results, same keys, sorted fields)": "theorems about the two models; both models tied to the real NewValueReflect and encoding/json by rfl.conv / rfl.json",
+            "equality/ordering/typed operations agree across representations; custom marshalers; JSON/YAML round trips": "correspondence + judges (external libraries)"},
     "C19": {"filter algebra (exclude = recursive difference, include = compatible paths); actor never owns ignored paths": "theorems",
             "no conflicts / no ownership loss from ignored-only changes; ignored values flow": "judges; known finding D8"},
     "C20": {"records at missing versions dropped without effect": "theorems",
-            "granular -> atomic reconcile": "correspondence + judge (cut at outermost atomic prefix, idempotent)",
-            "lossless converter transparency": "correspondence (renaming converter in the model) + judge versioned run = single-version run"},
+            "granular -> atomic reconcile": "correspondence + judge (cut at outermost atomic prefix, idempotent); theorems when present in the audit (C20Reconcile)",
+            "lossless converter transparency": "false of the code (known finding D11, kernel-checked witness d11_versioned_reapply_differs_witness); elsewhere correspondence (renaming converter in the model) + judge versioned run = single-version run"},
 }
 for _p, _c in CLAUSES.items():
     if _p in PROPS:
